@@ -38,6 +38,10 @@ def run(ctx):
     bind(ctx, facts)
     key_lookup(ctx, facts)
     totality(ctx, facts)
+    from rules import C17
+    C17.parse_errors(ctx, facts)       # a record that fails to parse surfaces as an error instead of being skipped or crashing
+    C17.items_flushed(ctx, facts)
+    C17.deferred_error_first(ctx, facts)
     ctx.assume("HPKE / AES-GCM authenticity is the library's; GenericArray::from_slice lengths agree with the accessor ranges because both are the same typenum sums (type-level, not re-derived)")
 
 
